@@ -9,6 +9,7 @@ import (
 	"strings"
 	"testing"
 
+	"verif/internal/match"
 	"verif/internal/model"
 	"verif/internal/progs"
 	"verif/internal/vk"
@@ -406,7 +407,7 @@ func run(r *vk.Run, prog []model.Node, partials map[string][]model.Node, compact
 	}
 	// and the canonical form agrees with the reference interpreter
 	want := model.RunWith(prog, progs.Data(), progs.Helpers(nil), partials)
-	if want.Unspec == "" && want.Err == "" && want.Out != base.Out {
+	if want.Unspec == "" && want.Err == "" && !match.SameText(want.Out, base.Out) {
 		return fail("canonical renders %q, the reference interpreter says %q", base.Out, want.Out)
 	}
 	return nil
